@@ -36,20 +36,21 @@ Proof. exact entry_returns_documented. Qed.
 
 (* --- the entry points --- *)
 
-Theorem all_entries_tight_partial : forall en, In en entries -> ~ In (e_name en) exempt_untight -> tight en = true.
-Proof. exact all_entries_tight_partial_l. Qed.
+(* FULL statements (no exempted entry since ppl_io_wrap_string has a function-try-block) *)
+Theorem all_entries_tight : forall en, In en entries -> tight en = true.
+Proof. intros en H. apply all_entries_tight_partial_l; [exact H | exact (fun x => x)]. Qed.
 
-Theorem never_escapes_partial : forall en, In en entries -> ~ In (e_name en) exempt_untight ->
+Theorem never_escapes : forall en, In en entries ->
   forall o, admissible en o ->
   match o with
   | Returns v => run_entry en o = (Returned v, [])
   | Throws e => exists c z, error_result (fst (run_entry en o)) c /\ In (E_notify c) (snd (run_entry en o))
                             /\ value_of enum_error_code c = Some z /\ (z < 0)%Z
   end.
-Proof. exact never_escapes_partial_l. Qed.
+Proof. intros en H. apply never_escapes_partial_l; [exact H | exact (fun x => x)]. Qed.
 
 (* the hypotheses are satisfiable: a real entry, a throwing outcome *)
-Example never_escapes_partial_inhabited :
+Example never_escapes_inhabited :
   exists en, In en entries /\ ~ In (e_name en) exempt_untight /\ admissible en (Throws (of_class BadAlloc)).
 Proof.
   destruct (find (fun x => e_has_try x && negb (str_mem (e_name x) exempt_untight)) entries) as [en|] eqn:F;
@@ -62,8 +63,9 @@ Qed.
 Theorem every_body_returns : forall en, In en entries -> e_body_returns en = true.
 Proof. intros en H. pose proof all_return as A. rewrite forallb_forall in A. exact (A en H). Qed.
 
-Theorem declared_are_defined_partial : forall p, In p prototypes -> ~ In p exempt_undefined -> In p entry_names.
-Proof. exact declared_defined. Qed.
+(* FULL statement (no exempted prototype since ppl_new_Linear_Expression_from_Grid_Generator is defined again) *)
+Theorem declared_are_defined : forall p, In p prototypes -> In p entry_names.
+Proof. intros p H. apply declared_defined; [exact H | exact (fun x => x)]. Qed.
 
 Theorem defined_are_declared : forall n, In n entry_names -> In n prototypes.
 Proof. exact defined_declared. Qed.
